@@ -527,6 +527,27 @@ func (w *world) runTransplants(r *engine.Report) []finding {
 				r.Branch("transplant-rejected")
 			}
 			r.Eval(1)
+			// the same with the id field inside A's stored bytes copied along:
+			// the slot the record is loaded from is still B's
+			ma, mb = mk(0), mk(1)
+			proto.Reset(ma)
+			proto.Reset(mb)
+			if proto.Unmarshal(ra, ma) != nil || proto.Unmarshal(rb, mb) != nil {
+				panic("unmarshal")
+			}
+			fa, fb = fields(ma), fields(mb)
+			*fb[fi] = *fa[fi]
+			idf := mb.ProtoReflect().Descriptor().Fields().ByName("id")
+			mb.ProtoReflect().Set(idf, ma.ProtoReflect().Get(idf))
+			raw, _ = proto.Marshal(mb)
+			tmp = harness.NewMemStore()
+			tmp.SetRaw(kind, op.Id, raw)
+			if _, err := loadAs(tmp, op, w.opt()); err == nil {
+				out = append(out, finding{fmt.Sprintf("transplant-opens:%s:field%d+id-field", name, fi), fmt.Sprintf("transplant:%s: sealed field #%d of one record, copied together with that record's own id field, opens when loaded from another record's slot", name, fi)})
+			} else {
+				r.Branch("transplant-rejected")
+			}
+			r.Eval(1)
 		}
 	}
 	try("NodeCredentials", "nodecreds", func(i int) proto.Message {
@@ -574,8 +595,62 @@ func (w *world) runTransplants(r *engine.Report) []finding {
 	return out
 }
 
+// runSetLoader: the records under one node id, one written without and one
+// with the wrapper (a server that turned the wrapper on later), in both lookup
+// orders, through LoadNodeInformationSetByNodeId.
+func (w *world) runSetLoader(r *engine.Report) []finding {
+	var out []finding
+	vclock.Freeze(harness.T0.Add(123456789))
+	for _, order := range []string{"clear-record-first", "sealed-record-first"} {
+		st := harness.NewMemStore()
+		mk := func(n string) *types.NodeInformation {
+			return &types.NodeInformation{Id: w.k[n].KeyId, NodeId: "node-X", CertificatePublicKeyPkix: w.k[n].Pkix, CertificatePublicKeyType: types.KEYTYPE_ED25519,
+				ServerEncryptionPrivateKeyBytes: w.e[n].Priv, ServerEncryptionPrivateKeyType: types.KEYTYPE_X25519}
+		}
+		if err := mk("K1").Store(harness.Ctx, st); err != nil {
+			panic(err)
+		}
+		if err := mk("K2").Store(harness.Ctx, st, w.opt()); err != nil {
+			panic(err)
+		}
+		st.NodeOrder = []string{w.k["K1"].KeyId, w.k["K2"].KeyId}
+		if order == "sealed-record-first" {
+			st.NodeOrder = []string{w.k["K2"].KeyId, w.k["K1"].KeyId}
+		}
+		r.Eval(3)
+		if _, err := types.LoadNodeInformationSetByNodeId(harness.Ctx, st, "node-X"); err == nil {
+			out = append(out, finding{"loads-without-wrapper:nodeinfo-set:" + order, "set loader (" + order + "): a set containing a record stored with a wrapper loads without one"})
+		}
+		if _, err := types.LoadNodeInformationSetByNodeId(harness.Ctx, st, "node-X", nodeenrollment.WithStorageWrapper(w.sx)); err == nil {
+			out = append(out, finding{"loads-with-other-wrapper:nodeinfo-set:" + order, "set loader (" + order + "): a set containing a record stored with a wrapper loads with a different wrapper"})
+		}
+		set, err := types.LoadNodeInformationSetByNodeId(harness.Ctx, st, "node-X", w.opt())
+		switch {
+		case err != nil:
+			out = append(out, finding{"round-trip-differs:nodeinfo-set:" + order, fmt.Sprintf("set loader (%s): loading with the storing wrapper failed: %v", order, err)})
+		default:
+			ok := len(set.Nodes) == 2
+			for _, n := range set.Nodes {
+				want := w.e["K1"].Priv
+				if n.Id == w.k["K2"].KeyId {
+					want = w.e["K2"].Priv
+				}
+				if !bytes.Equal(n.ServerEncryptionPrivateKeyBytes, want) {
+					ok = false
+				}
+			}
+			if !ok {
+				out = append(out, finding{"round-trip-differs:nodeinfo-set:" + order, "set loader (" + order + "): loading with the storing wrapper does not return the stored server keys (a sealed value was handed back as if it were the key)"})
+			} else {
+				r.Branch("set-loader-audited")
+			}
+		}
+	}
+	return out
+}
+
 func run(c *engine.Ctx, r *engine.Report) {
-	r.Need("audited:roots", "audited:nodeinfo", "audited:nodecreds", "audited:token", "round-trip", "transplant-rejected", "wrapper-fault-audited")
+	r.Need("audited:roots", "audited:nodeinfo", "audited:nodecreds", "audited:token", "round-trip", "transplant-rejected", "wrapper-fault-audited", "set-loader-audited")
 	w := newWorld(c.Seed)
 	report := func(k kase, fs []finding) {
 		seen := map[string]bool{}
@@ -612,6 +687,7 @@ func run(c *engine.Ctx, r *engine.Report) {
 		}
 	}
 	report(kase{"transplant", "all", c.Seed}, w.runTransplants(r))
+	report(kase{"setloader", "all", c.Seed}, w.runSetLoader(r))
 	vclock.Reset()
 }
 
@@ -643,6 +719,8 @@ func replay(c *engine.Ctx, raw json.RawMessage) (string, bool) {
 				fs = w.runDirect(d.Name, d.Msg, r)
 			}
 		}
+	case "setloader":
+		fs = w.runSetLoader(r)
 	default:
 		fs = w.runTransplants(r)
 	}
@@ -660,7 +738,7 @@ func init() {
 	engine.Register(&engine.CheckDef{
 		ID:    "C12",
 		Level: "exploration",
-		Rule: "8 writing flows through the real API with a storage wrapper (root rotation + reinit, root rotation and store with an application-state option in the same option list, authorize+fetch+handle, token, wrapper registration, node rotation, previous key on node credentials / node information), every hand-built record over the 16 combinations of optional fields {nonce, previous key, state, bundles} for the node types and {state} for roots and tokens, every transplant of a sealed field between two records of the same type, and every flow again with the wrapper failing at each of its operations in turn (whatever reached storage must still satisfy the property); the harness store records the exact bytes handed to Storage.Store; secrets are learnt by unwrapping those bytes with the same wrapper; " +
+		Rule: "8 writing flows through the real API with a storage wrapper (root rotation + reinit, root rotation and store with an application-state option in the same option list, authorize+fetch+handle, token, wrapper registration, node rotation, previous key on node credentials / node information), every hand-built record over the 16 combinations of optional fields {nonce, previous key, state, bundles} for the node types and {state} for roots and tokens, every transplant of a sealed field (alone, and together with the record's own id field) between two records of the same type, the node-id set loader over a set that mixes a record written without and one written with the wrapper in both lookup orders, and every flow again with the wrapper failing at each of its operations in turn (whatever reached storage must still satisfy the property); the harness store records the exact bytes handed to Storage.Store; secrets are learnt by unwrapping those bytes with the same wrapper; " +
 			"distinct_nontrivial counts scenarios / records / transplant groups (distinct by construction) that were audited without a finding",
 		Assumptions: []string{"a secret is searched as a byte substring (PKCS8 form, raw Ed25519 seed, raw X25519 scalar, nonce, marshaled timestamp with a nanosecond part); secrets shorter than 8 bytes are not searched"},
 		Run:         run,
